@@ -4,7 +4,7 @@
    JsonString.v, Utf8Facts.v, TablesOk.v. *)
 From Coq Require Import Floats Permutation.
 From JM Require Import Model.Base Model.Num Model.Utf8 Model.Value Model.JsonText Model.Lexer Model.Parser Model.Interp Model.Api
-     Spec.Grammar Proofs.ValueFacts Proofs.TablesOk Proofs.Utf8Facts Proofs.JsonString Proofs.LexView Proofs.LexSpell Proofs.LexText
+     Spec.Grammar Proofs.ValueFacts Proofs.TablesOk Proofs.Utf8Facts Proofs.JsonString Proofs.LexView Proofs.LexSpell Proofs.LexText Proofs.JsonRound
      Inst.FloatNum Run.Checker.
 From JM Require Import gen.Tables.
 
@@ -90,6 +90,16 @@ Theorem C14_literal_denotes :
   match json_unmarshal t with Some v => Ok v | None => Err ECompileOther end.
 Proof. exact (json_literal_denotes ord). Qed.
 
+(* for every JSON value v (strings valid UTF-8, any depth up to the decoder's
+   limit), the backtick literal spelled as json.Marshal's text of v denotes exactly
+   v.  NumText: the number law (Proofs/JsonRound.v), a hypothesis on the number
+   type; paired: the text has no backslash before a backtick or at its end, which
+   holds of what json.Marshal writes and is decidable for a given text *)
+Theorem C14_literal_of_value :
+  NumText -> forall v t d, json_marshal v = Some t -> jok v -> vdepth v <= max_nesting_depth -> paired t = true ->
+    search ord (96%N :: lit_escape t ++ [96%N]) d = Ok v.
+Proof. exact (fun NT => literal_of_value NT ord). Qed.
+
 Theorem C14_backtick_unescape : forall t, replace2 92 96 96 (lit_escape t) = t.
 Proof. exact lit_unescape. Qed.
 
@@ -141,6 +151,7 @@ Print Assumptions C14_raw_lexes.
 Print Assumptions C14_raw_denotes.
 Print Assumptions C14_literal_lexes.
 Print Assumptions C14_literal_denotes.
+Print Assumptions C14_literal_of_value.
 Print Assumptions C14_backtick_unescape.
 Print Assumptions C14_token_list_lexes.
 Print Assumptions C14_whitespace_is_insignificant.
